@@ -95,10 +95,12 @@ m("C05", "data/roll.py", "                            if count == window:\n     
 m("C05", "data/roll.py", "                            count = n - w_value + 1\n                            if count == window:", "                            if n - w_value == window - 1:", "silent", note="algebraically equal closing test")
 m("C05", "data/roll.py", "                    if count == 0:\n                        observer.on_next(rs.OnCreateMux((i.key[0], i.key), i.store))", "                    if count < 1:\n                        observer.on_next(rs.OnCreateMux((i.key[0], i.key), i.store))", "silent")
 # ---------------------------------------------------------------- C06
+m('C06', 'data/split.py', "                    else:\n                        # the next item is compared with this one, not\n                        # with the first item of the segment\n                        i.store.set_state(state, i.key, new_predicate)\n", "", 'fire', ['DP-4'], 're-introduces the repaired defect d2134d9: the stored predicate is that of the first item of the segment')
+m('C06', 'data/split.py', "                    elif new_predicate != current_predicate:\n                        i.store.set_state(state, i.key, new_predicate)\n                        observer.on_next(rs.OnCompletedMux((i.key[0], i.key), i.store))\n                        observer.on_next(rs.OnCreateMux((i.key[0], i.key), i.store))\n\n                    else:\n                        # the next item is compared with this one, not\n                        # with the first item of the segment\n                        i.store.set_state(state, i.key, new_predicate)\n", "                    elif new_predicate != current_predicate:\n                        observer.on_next(rs.OnCompletedMux((i.key[0], i.key), i.store))\n                        observer.on_next(rs.OnCreateMux((i.key[0], i.key), i.store))\n\n                    i.store.set_state(state, i.key, new_predicate)\n", 'silent', [], 'one unconditional store of the new predicate after the boundary events')
 m("C06", "data/split.py", "                    elif new_predicate != current_predicate:", "                    if new_predicate != current_predicate:", "fire", ["DP-4"], "the split defect repaired by c14a7d7, re-introduced (first item compared with itself)")
 m("C06", "data/split.py", "if new_predicate != current_predicate:", "if new_predicate is not current_predicate:", "fire", ["EQ-1", "DP-4"])
 m("C06", "data/split.py", "                    elif new_predicate != current_predicate:\n                        i.store.set_state(state, i.key, new_predicate)", "                    elif new_predicate != current_predicate:\n                        i.store.set_state(state, i.key, current_predicate)", "fire", ["DP-4"])
-m("C06", "data/split.py", "                        observer.on_next(rs.OnCompletedMux((i.key[0], i.key), i.store))\n                        observer.on_next(rs.OnCreateMux((i.key[0], i.key), i.store))\n\n                    observer.on_next(i._replace(key=(i.key[0], i.key)))", "                        observer.on_next(i._replace(key=(i.key[0], i.key)))\n                        observer.on_next(rs.OnCompletedMux((i.key[0], i.key), i.store))\n                        observer.on_next(rs.OnCreateMux((i.key[0], i.key), i.store))\n                        return\n\n                    observer.on_next(i._replace(key=(i.key[0], i.key)))", "fire", ["DP-4"], "boundary item delivered to the old segment")
+m("C06", "data/split.py", "                        observer.on_next(rs.OnCompletedMux((i.key[0], i.key), i.store))\n                        observer.on_next(rs.OnCreateMux((i.key[0], i.key), i.store))\n\n                    else:", "                        observer.on_next(i._replace(key=(i.key[0], i.key)))\n                        observer.on_next(rs.OnCompletedMux((i.key[0], i.key), i.store))\n                        observer.on_next(rs.OnCreateMux((i.key[0], i.key), i.store))\n                        return\n\n                    else:", "fire", ["DP-4"], "boundary item delivered to the old segment")
 m("C06", "data/split.py", "if new_predicate != current_predicate:", "if not (new_predicate == current_predicate):", "silent")
 # ---------------------------------------------------------------- C07
 m("C07", "data/time_split.py", "new >= last + inactive_timeout", "new > last + inactive_timeout", "fire", ["CMP-1"])
